@@ -131,7 +131,7 @@ def check_algebraic(spec, ctx):
     scaleA = max(1.0, float(np.max(np.abs(D))))
     LA = _dense(LS.A)
     ctx.close("restricted_matrix", LA, Aref, rtol=4 * EPS, scale=scaleA, what="LS.A")
-    sb = float(np.max(np.abs(bref)) if m else 0.0) + float(np.sum(np.abs(D), axis=1).max() * (np.max(np.abs(vref)) if k else 0.0)) + 1e-300
+    sb = float(np.max(np.abs(bref)) if m else 0.0) + float(np.sum(np.abs(D), axis=1).max() * (np.max(np.abs(vref)) if k else 0.0)) + 1e-100
     Lb = _vec(ctx, "restricted_rhs", LS.b, nf, "LS.b")
     ctx.close("restricted_rhs", Lb, bfull[rperm], rtol=64 * EPS, scale=sb, what="LS.b")
 
@@ -139,13 +139,13 @@ def check_algebraic(spec, ctx):
     x = np.linalg.solve(LA, Lb) if nf else np.zeros(0)
     u = _vec(ctx, "complete_shape", ctx.sut(LS.complete, x, what="complete"), n, "complete(x)")
     if k:
-        ctx.close("prescribed_value", u[idx], vref, rtol=4 * EPS, atol=1e-300, scale=max(float(np.max(np.abs(vref))), 1e-300),
+        ctx.close("prescribed_value", u[idx], vref, rtol=4 * EPS, atol=1e-100, scale=max(float(np.max(np.abs(vref))), 1e-100),
                   what="u[idx[k]] vs values[k] (idx=%r)" % (idx,))
     res = D @ u - bref
-    rs = float(np.sum(np.abs(D), axis=1).max()) * float(np.max(np.abs(u))) + float(np.max(np.abs(bref))) + 1e-300
+    rs = float(np.sum(np.abs(D), axis=1).max()) * float(np.max(np.abs(u))) + float(np.max(np.abs(bref))) + 1e-100
     if nf:
         ctx.close("free_equations", res[free_rows], np.zeros(nf), rtol=0, atol=1e-11 * rs, what="(A u - b)[free rows]")
-        ctx.close("complete_keeps_free", u[perm], x, rtol=4 * EPS, atol=1e-300, scale=max(float(np.max(np.abs(x))), 1e-300))
+        ctx.close("complete_keeps_free", u[perm], x, rtol=4 * EPS, atol=1e-100, scale=max(float(np.max(np.abs(x))), 1e-100))
 
     # --- mutual consistency of restrict / extend / restrict_rhs / restrict_matrix / complete
     y = np.array([((j * j) % 5) - 1.5 for j in range(nf)])
@@ -157,7 +157,7 @@ def check_algebraic(spec, ctx):
     w = np.array([((3 * j) % 7) - 2.25 for j in range(n)])
     w[idx] = vref
     cw = _vec(ctx, "complete_restrict_identity", ctx.sut(LS.complete, ctx.sut(LS.restrict, w)), n, "complete(restrict(w))")
-    ctx.close("complete_restrict_identity", cw, w, rtol=4 * EPS, atol=1e-300, scale=max(float(np.max(np.abs(w))), 1e-300))
+    ctx.close("complete_restrict_identity", cw, w, rtol=4 * EPS, atol=1e-100, scale=max(float(np.max(np.abs(w))), 1e-100))
     f = np.array([((5 * j) % 11) - 4.5 for j in range(m)])
     ctx.equal("restrict_rhs", _vec(ctx, "restrict_rhs", ctx.sut(LS.restrict_rhs, f), nf, "restrict_rhs(f)").tolist(),
               f[rperm].tolist(), "restrict_rhs(f)")
@@ -196,10 +196,10 @@ def check_algebraic(spec, ctx):
 def strat_algebraic(draw):
     n = draw(st.sampled_from([1, 2, 2, 3, 3, 4, 4, 5, 5, 6, 7, 8, 9, 10, 11, 12, 13, 14]))
     order = list(draw(st.permutations(list(range(n)))))
-    ksel = draw(st.sampled_from(["any", "any", "any", "any", "empty", "one", "allbutone", "all"]))
+    ksel = draw(st.sampled_from(["any"] * 8 + ["empty", "one", "allbutone", "allbutone", "all"]))
     k = {"empty": 0, "one": min(1, n), "allbutone": n - 1, "all": n}.get(ksel)
     if k is None:
-        k = draw(st.integers(0, n))
+        k = draw(st.integers(min(2, n), n))
     idx = order[:k]
     omode = draw(st.sampled_from(["drawn", "drawn", "drawn", "sorted", "reversed"]))
     if omode == "sorted":
@@ -301,10 +301,9 @@ def check_boundary_dofs(spec, ctx):
 
 
 def _faces(draw, d):
-    if draw(st.booleans()):
-        names = ["left", "right"] + (["bottom", "top"] if d >= 2 else []) + (["front", "back"] if d >= 3 else [])
-        return draw(st.sampled_from(names))
-    return [draw(st.integers(0, d - 1)), draw(st.integers(0, 1))]
+    names = ["left", "right"] + (["bottom", "top"] if d >= 2 else []) + (["front", "back"] if d >= 3 else [])
+    pairs = [[ax, side] for ax in range(d) for side in (0, 1)]
+    return draw(st.sampled_from(names + pairs))
 
 
 @st.composite
@@ -481,7 +480,7 @@ CONSTS = [0, 1, -2, 0.0, 1.0, 2.5, -0.75]
 
 @st.composite
 def data_spec(draw, vector=True):
-    kinds = ["const", "constfn", "fn", "fn", "fn1"] + (["vec_tuple", "vec_tuple", "vec_array"] if vector else [])
+    kinds = ["fn", "fn", "fn", "fn1", "const", "constfn"] + (["vec_tuple", "vec_tuple", "vec_array"] if vector else [])
     k = draw(st.sampled_from(kinds))
     if k in ("const", "constfn"):
         return {"kind": k, "value": draw(st.sampled_from(CONSTS))}
@@ -503,6 +502,7 @@ def space_and_geo(draw, dims=(1, 2, 2, 2, 3, 3), pmin=0):
     gkind = draw(st.sampled_from(["named", "named", "identity", "random", "random", "random"]))
     iv = "unit" if gkind == "named" else draw(st.sampled_from(["unit", "grid"]))
     pmax, nmax = (3, 4) if d < 3 else (2, 3)
+    pmin = pmin if draw(st.integers(0, 4)) == 0 else 1
     kvs = [draw(gk.knotvec(pmin=pmin, pmax=pmax, nmax=nmax, decades=2, interval=iv)) for _ in range(d)]
     if gkind == "named":
         gs = {"kind": "named", "name": draw(st.sampled_from(NAMED[d])), "args": [draw(st.integers(-4, 4)) for _ in range(3)]}
@@ -540,7 +540,7 @@ def _setup_space(ctx, spec):
 def _coef_tol(ref):
     """Rounding bound for the interpolation coefficients: collocation solves are backward stable, so the
     coefficient error is <= c * eps * cond * max|coef| (c generous)."""
-    s = max(float(np.max(np.abs(ref.coef))), float(np.max(np.abs(ref.F))), 1e-300)
+    s = max(float(np.max(np.abs(ref.coef))), float(np.max(np.abs(ref.F))), 1e-100)
     return 512 * EPS * max(ref.cond, 1.0) * s
 
 
@@ -571,7 +571,7 @@ def check_bc_single(spec, ctx):
     # the returned values, read as a spline on the face, take the boundary data at the Greville points
     co = np.array([[got[int(i) + j * ref.NN] for j in range(ncomp)] for i in ref.idx]).reshape(ref.fshape + (ncomp,))
     at_nodes = rb.tp_eval(ref.fkvs, co, ref.grid)
-    s = max(float(np.max(np.abs(co))), float(np.max(np.abs(ref.F))), 1e-300)
+    s = max(float(np.max(np.abs(co))), float(np.max(np.abs(ref.F))), 1e-100)
     ctx.close("bc_interpolates", at_nodes, ref.F, rtol=0, atol=1e-11 * s, what="spline on the face at the Greville points vs g(G(xi))")
     dk = spec["data"]["kind"]
     ctx.flag("face_name" if isinstance(face, str) else "face_pair", "ax%d_side%d" % (ax, side), "data_" + dk)
@@ -642,8 +642,8 @@ def check_bc_multi(spec, ctx):
         u = _vec(ctx, "chain_shape", ctx.sut(LS.complete, np.linalg.solve(LA, Lb) if nfree else np.zeros(0), what="complete"), NN, "u")
         ids = sorted(got)
         vv = np.array([got[i] for i in ids])
-        ctx.close("chain_prescribed_value", u[ids] if ids else np.zeros(0), vv, rtol=4 * EPS, atol=1e-300,
-                  scale=max(float(np.max(np.abs(vv))) if ids else 0.0, 1e-300))
+        ctx.close("chain_prescribed_value", u[ids] if ids else np.zeros(0), vv, rtol=4 * EPS, atol=1e-100,
+                  scale=max(float(np.max(np.abs(vv))) if ids else 0.0, 1e-100))
         free = [i for i in range(NN) if i not in got]
         rs = 4.5 ** d * float(np.max(np.abs(u))) + 3.0
         ctx.close("chain_free_equations", (M @ u - bvec)[free], np.zeros(len(free)), rtol=0, atol=1e-11 * rs)
@@ -855,7 +855,7 @@ def check_initial(spec, ctx):
     tk, pt = tkr
     br = np.unique(tk)
     h = float(br[1] - br[0]) if side == 0 else float(br[-1] - br[-2])
-    s0 = max(float(np.max(np.abs(gv))), float(np.max(np.abs(r0))), 1e-300)
+    s0 = max(float(np.max(np.abs(gv))), float(np.max(np.abs(r0))), 1e-100)
     ctx.close("ic_value", v0, r0, rtol=0, atol=1e-11 * s0, what="u(.,t_end) vs g0")
     s1 = max(s0 * pt / h, float(np.max(np.abs(r1))))
     ctx.close("ic_time_derivative", v1, r1, rtol=0, atol=1e-10 * s1, what="du/dt(.,t_end) vs g1")
@@ -882,23 +882,23 @@ def strat_initial(draw):
 # =============================================================================================
 
 SUBCHECKS = [
-    Sub("algebraic", check_algebraic, strategy=lambda tier: strat_algebraic(), quick=5000, thorough=100000, shards=8,
+    Sub("algebraic", check_algebraic, strategy=lambda tier: strat_algebraic(), quick=5000, thorough=100000, shards=4,
         rule="n 1-14, dense/CSR/CSC/COO, SPD or dominant free block, index sets of all sizes in drawn order, "
              "scalar/array/list/tuple values, scalar/array rhs, elim_rows (incl. rectangular)", floor=200),
-    Sub("slices", check_slices, enum=enum_slices, quick=0, thorough=0, shards=2,
+    Sub("slices", check_slices, enum=enum_slices, quick=0, thorough=0, shards=1,
         rule="exhaustive: shapes <=3 (quick) / <=4 (thorough) per axis, dim 1-3, every axis, idx in {0,-1,n-1,-n,n//2}, "
              "every flip, ravel on/off", floor=50),
-    Sub("boundary_dofs", check_boundary_dofs, strategy=lambda tier: strat_boundary_dofs(), quick=300, thorough=5000, shards=2,
+    Sub("boundary_dofs", check_boundary_dofs, strategy=lambda tier: strat_boundary_dofs(), quick=300, thorough=5000, shards=1,
         rule="boundary_dofs / boundary_cells on random tensor bases, names and pairs, flips", floor=20),
     Sub("combine", check_combine, strategy=lambda tier: strat_combine(), quick=400, thorough=10000, shards=1,
         rule="1-4 index/value arrays with overlaps and conflicting values", floor=20),
-    Sub("bc_single", check_bc_single, strategy=lambda tier: strat_bc_single(), quick=400, thorough=6000, shards=8,
+    Sub("bc_single", check_bc_single, strategy=lambda tier: strat_bc_single(), quick=1000, thorough=12000, shards=4,
         rule="one face, dim 1-3, scalar/constant/vector data, all geometry kinds", floor=40),
-    Sub("bc_multi", check_bc_multi, strategy=lambda tier: strat_bc_multi(), quick=250, thorough=4000, shards=8,
+    Sub("bc_multi", check_bc_multi, strategy=lambda tier: strat_bc_multi(), quick=600, thorough=8000, shards=4,
         rule="1-4 (face,data) pairs or the 'all' shorthand; result chained into RestrictedLinearSystem", floor=30),
-    Sub("multipatch", check_multipatch, strategy=lambda tier: strat_multipatch(), quick=150, thorough=2500, shards=6,
+    Sub("multipatch", check_multipatch, strategy=lambda tier: strat_multipatch(), quick=400, thorough=5000, shards=3,
         rule="2-3 box patches (dim 1-3), automatch, optional mirrored patches, 1-4 conditions", floor=20),
-    Sub("initial_condition", check_initial, strategy=lambda tier: strat_initial(), quick=250, thorough=4000, shards=6,
+    Sub("initial_condition", check_initial, strategy=lambda tier: strat_initial(), quick=600, thorough=8000, shards=3,
         rule="space-time cylinders over 1-D/2-D geometries, any time axis, initial or final face, physical or "
              "parametric data", floor=30),
 ]
